@@ -28,8 +28,8 @@ package controller
 //@   nopanic
 //@   callsite CommitCertificate requires[same] arg1 == old(msg.BlockAndCertificate)
 //@   callsite CommitCertificate requires[ids] (syncing && qc.Header.Height % CheckpointFrequency != 0) || (qc.Header.NetworkId == c.Config.NetworkID && qc.Header.ChainId == c.Config.ChainId)
-//@   callsite CommitCertificate requires[certified] (syncing && qc.Header.Height % CheckpointFrequency != 0) || (aggVerifies(committeeOf(v.MultiKey), bytes(qc.Signature.Bitmap), signBytesOf(qc), bytes(qc.Signature.Signature)) && signedPowerW(v.ValidatorSet.ValidatorSet, bytes(qc.Signature.Bitmap), false, len(v.ValidatorSet.ValidatorSet)) >= v.MinimumMaj23)
-//@   callsite CommitCertificate requires[committee] (syncing && qc.Header.Height % CheckpointFrequency != 0) || committeeOf(v.MultiKey) == committeeAt(rootChainIdAt(qc.Header.Height), qc.Header.RootHeight)
+//@   callsite CommitCertificate requires[certified] (syncing && qc.Header.Height % CheckpointFrequency != 0) || (aggVerifies(committeeOf(resultof(LoadCommittee).MultiKey), bytes(qc.Signature.Bitmap), signBytesOf(qc), bytes(qc.Signature.Signature)) && signedPowerW(resultof(LoadCommittee).ValidatorSet.ValidatorSet, bytes(qc.Signature.Bitmap), false, len(resultof(LoadCommittee).ValidatorSet.ValidatorSet)) >= resultof(LoadCommittee).MinimumMaj23)
+//@   callsite CommitCertificate requires[committee] (syncing && qc.Header.Height % CheckpointFrequency != 0) || committeeOf(resultof(LoadCommittee).MultiKey) == committeeAt(rootChainIdAt(qc.Header.Height), qc.Header.RootHeight)
 
 // the previous block's certificate carried in a header is written to the store only if it names the block and
 // results this node committed at height-1 and - outside sync - verifies as a full +2/3 certificate of the
